@@ -85,6 +85,7 @@ class Contract:
     ghost_params: Dict[str, Sort] = field(default_factory=dict)
     ghosts: Dict[str, Sort] = field(default_factory=dict)          # ghost locals (unconstrained at entry)
     ghost_after: Dict[str, List[str]] = field(default_factory=dict)  # stmt source text -> ["name = expr", ...]
+    ghost_before: Dict[str, List[str]] = field(default_factory=dict)
     notes: str = ""
 
     # ---- DSL -----------------------------------------------------------
@@ -140,6 +141,11 @@ class Contract:
 
     def after(self, stmt_text, *assigns):
         self.ghost_after.setdefault(stmt_text.strip(), []).extend(assigns)
+        return self
+
+    def before(self, stmt_text, *assigns):
+        """ghost code executed immediately BEFORE the statement"""
+        self.ghost_before.setdefault(stmt_text.strip(), []).extend(assigns)
         return self
 
     @property
